@@ -294,8 +294,15 @@ func genMatchWith(delims []string, bad bool) func(r *Rng, n int, w io.Writer, st
 			}
 			ref, pat := splitRefPattern(r, del, genPattern(r, del, base, st))
 			if bad && r.Chance(1, 10) {
-				// reference/pattern that is not valid UTF-8: the expression text does not compile
-				pat = Pick(r, []string{"\xff", "a\xff%", "\xc3", "*\x80"})
+				// reference/pattern that is not valid UTF-8: the expression text does not compile -> "no match"
+				if r.Bool() {
+					pat = Pick(r, []string{"\xff", "a\xff%", "\xc3", "*\x80", "%\xfe*"})
+				} else {
+					ref = Pick(r, []string{"\xff", "a/\xc3", "\x80/"})
+					if pat == "" {
+						pat = "*"
+					}
+				}
 				del = "/"
 				st.Inc("pattern.invalid-utf8")
 			}
